@@ -26,7 +26,7 @@ The property you should break:
   Why the existing tests cannot settle it: {why}
   Code it is anchored in: {files}
 
-Earlier rounds already produced the changes listed below for this property; yours must be DIFFERENT in mechanism, in the file touched where possible, and in the inputs needed (do not redo or vary any of them). Look for places the earlier rounds did not touch: shared helpers and utilities, model classes (equality, hashing, defaults, properties), lookups and caches, rarely used sections / argument types / code paths, interactions between two operations, behaviour on a second call with the same object, optional arguments, platform / path handling, numeric edge values.
+Earlier rounds already produced the changes listed below for this property; yours must be DIFFERENT in mechanism, in the file touched where possible, and in the inputs needed (do not redo or vary any of them). Look for places the earlier rounds did not touch: shared helpers and utilities, model classes (equality, hashing, defaults, properties), lookups and caches, rarely used sections / argument types / code paths, interactions between two operations, behaviour on a second call with the same object, optional arguments, platform / path handling, numeric edge values, error paths and what they leave behind, defaults of dataclass fields, the order in which sections or entries are visited, string encodings, interactions between two sections (one rebuilt from another), and input shapes real map editors produce but the test fixtures do not contain.
 {previous}
 
 Task: produce TWO different, independent changes to the library source (under {wt}/src only), each of which
